@@ -29,7 +29,7 @@ def generate(rng, tier):
             if tag(nd) == 'fn' and any(tag(a) == 'af' and a[1] == 'address' for a in nd[3][1:]) and rng.random() < 0.5:
                 pass
     from .. import o4exec
-    return out + clash_worlds(rng, n // 3, o) + o4exec.exec_worlds(rng, 10 if tier == 'quick' else 200, **dict(p_base=0.8, p_impl=0.6, p_vftable=0.5, max_items=6))
+    return out + clash_worlds(rng, n // 3, o) + same_name_worlds(rng, max(6, n // 25)) + o4exec.exec_worlds(rng, 10 if tier == 'quick' else 200, **dict(p_base=0.8, p_impl=0.6, p_vftable=0.5, max_items=6))
 
 def clash_worlds(rng, n, o):
     out = []
@@ -60,6 +60,28 @@ def clash_worlds(rng, n, o):
         out.append(c)
     return out
 
+def same_name_worlds(rng, n):
+    """hierarchies in which DIFFERENT base types share a short name (ga::Node, au::Node), one of them reached transitively;
+    each occurs once, so each converts by reference; a control variant really has the same type twice (a diamond)"""
+    out = []
+    for i in range(n):
+        af = lambda name, addr: fn(True, name, [a_int('address', addr)], [SELF], None)
+        ga = modent(path('ga%d' % i), module(defs=[type_def(True, 'Node', [], [field(True, 'x', ty_id('u32'))])],
+                                             impls=[impl('Node', [], [af('ga_fn', 0x10001000)])]))
+        au = modent(path('au%d' % i), module(defs=[type_def(True, 'Node', [], [field(True, 'y', ty_id('u64'))])],
+                                             impls=[impl('Node', [], [af('au_fn', 0x10002000)])]))
+        mid = modent(path('mid%d' % i), module(uses=[path('ga%d' % i, 'Node')], defs=[
+            type_def(True, 'Mid', [], [field(True, 'n', ty_id('Node'), [a_ident('base')]), field(True, 'k', ty_id('u32'))])]))
+        diamond = rng.random() < 0.3
+        top_uses = [path(('ga%d' if diamond else 'au%d') % i, 'Node'), path('mid%d' % i, 'Mid')]
+        top = modent(path('top%d' % i), module(uses=top_uses, defs=[
+            type_def(True, 'Top', [a_int('align', 8)] if not diamond else [], [field(True, 'm', ty_id('Mid'), [a_ident('base')]),
+                                                                             field(True, 'n', ty_id('Node'), [a_ident('base')])]
+                     + ([field(True, 'pad', ty_id('u32'))] if diamond else []))]))
+        ents = [ga, au, mid, top]; rng.shuffle(ents)
+        out.append(case('sn%d' % i, rng.choice([4, 8]), ents))
+    return out
+
 def base_fields(d):
     return [st for st in type_stmts(d) if stmt_is_field(st) and has_ident(st[4][1:], 'base')]
 
@@ -76,38 +98,46 @@ def judge(c, impl, model):
     def report(reason, detail):
         if reason not in seen:
             seen.add(reason); fs.append(Finding('O', reason, cid, detail))
-    # index of emitted items by type name (names are unique across a generated world)
+    # index of input definitions and emitted items by full path (the same short name may be defined in several modules)
     impls, structs, defs = {}, {}, {}
+    binders = {}
     for (mp, file, m) in modules_of(c):
         items = file_items(files, mp) or []
+        binders[tuple(mp)] = binder(c, mp)
         for d in m_defs(m):
             if def_is_type(d):
-                defs[def_name(d)] = (mp, d)
+                defs[tuple(mp + [def_name(d)])] = (mp, d)
         for it in items:
-            if tag(it) == 'impl': impls[it[1]] = it
-            if tag(it) == 'struct': structs[it[5]] = (mp, it)
-    input_impl_fns = [(mp, im_[1], f) for (mp, file, m) in modules_of(c) for im_ in m_impls(m) for f in im_[3:]]
-    def tyname(t):
-        return t[1] if tag(t) == 'id' else None
-    def hierarchy(name, prefix, depth=0):
-        """[(field path, type path string)] in pyxis's DFS order"""
+            if tag(it) == 'impl': impls[tuple(mp + [it[1]])] = it
+            if tag(it) == 'struct': structs[tuple(mp + [it[5]])] = (mp, it)
+    input_impl_fns = [(tuple(mp + [im_[1]]), f) for (mp, file, m) in modules_of(c) for im_ in m_impls(m) for f in im_[3:]]
+    def tykey(mp, t):
+        """full path (tuple) of the type a field of module `mp` names, by the scoping rule"""
+        if tag(t) != 'id': return None
+        b = binders[tuple(mp)](t[1])
+        return tuple(b) if b is not None and len(b) > 1 else None
+    def key_of_str(ty):
+        return tuple(ty.split('::')[1:]) if ty and ty.startswith('crate::') else None
+    def hierarchy(key, prefix, depth=0):
+        """[(field path, type string at depth 0, base key)] in pyxis's DFS order"""
         out = []
-        if name not in defs or depth > 8: return out
-        mp, d = defs[name]
-        st = structs.get(name)
+        if key not in defs or depth > 8: return out
+        mp, d = defs[key]
+        st = structs.get(key)
         ftypes = {f[0]: f[2] for f in struct_fields(st[1])} if st else {}
         for bf in base_fields(d):
-            bn = tyname(bf[3])
+            bn = tykey(mp, bf[3])
             fp = prefix + [bf[2]]
             out.append((fp, ftypes.get(bf[2]) if depth == 0 else None, bn))
             out += hierarchy(bn, fp, depth + 1)
         return out
     checked = 0
-    for name, (mp, d) in defs.items():
+    for key, (mp, d) in defs.items():
+        name = key[-1]
         bfs = base_fields(d)
         if not bfs:
             continue
-        im = impls.get(name)
+        im = impls.get(key)
         if im is None:
             report('C07/impl-missing', name); continue
         methods = impl_methods(im)
@@ -116,23 +146,24 @@ def judge(c, impl, model):
         blk = [st for st in type_stmts(d) if tag(st) == 'vftable']
         own_slots = [m_ for m_ in methods if tag(method_body(m_)) == 'call-slot']
         # names taken first: all functions of the type's vftable (incl. private / placeholders): take them from the emitted table
-        vs = structs.get(name + 'Vftable')
+        vkey = lambda k_: k_[:-1] + (k_[-1] + 'Vftable',)
+        vs = structs.get(vkey(key))
         used = set()
         if vs is not None:
             used = set(f[0] for f in struct_fields(vs[1]))
         else:
             # inherited table: the first base's (transitively)
-            b = tyname(bfs[0][3])
+            b = tykey(mp, bfs[0][3])
             seenb = 0
             while b in defs and seenb < 8:
-                if (b + 'Vftable') in structs:
-                    used = set(f[0] for f in struct_fields(structs[b + 'Vftable'][1])); break
+                if vkey(b) in structs:
+                    used = set(f[0] for f in struct_fields(structs[vkey(b)][1])); break
                 nb = base_fields(defs[b][1])
-                b = tyname(nb[0][3]) if nb else None
+                b = tykey(defs[b][0], nb[0][3]) if nb else None
                 seenb += 1
         expected = []
         for i, bf in enumerate(bfs):
-            bname = tyname(bf[3])
+            bname = tykey(mp, bf[3])
             bim = impls.get(bname)
             if bim is None:
                 continue     # extern type or enum as base: nothing to inject / not a type
@@ -152,16 +183,16 @@ def judge(c, impl, model):
         # public functions of a base whose name starts with `_` are "internal": the base gets no wrapper for them (open finding
         # C05/…/underscore-name) and so nothing can be forwarded; the property's "every public function" does not hold for them
         for i, bf in enumerate(bfs):
-            bname = tyname(bf[3])
+            bname = tykey(mp, bf[3])
             if bname not in defs: continue
             bmp, bd = defs[bname]
-            cand = [f for (imp_, tn, f) in input_impl_fns if tn == bname]
+            cand = [f for (tn, f) in input_impl_fns if tn == bname]
             if i > 0:
                 for stt in type_stmts(bd):
                     if tag(stt) == 'vftable': cand += stt[2:]
             for f in cand:
                 if fn_pub(f) and fn_name(f).startswith('_'):
-                    report('C07/base-function-not-reexposed/underscore-name', '%s: %s.%s' % (name, bname, fn_name(f)))
+                    report('C07/base-function-not-reexposed/underscore-name', '%s: %s.%s' % (name, '::'.join(bname), fn_name(f)))
         got = [m_ for m_ in methods if tag(method_body(m_)) == 'call-field']
         exp_emitted = [e for e in expected if not e[0].startswith('_')]
         checked += len(exp_emitted)
@@ -184,17 +215,17 @@ def judge(c, impl, model):
                 if str(mt[2]) != 'pub':
                     report('C07/forwarder-not-public', '%s::%s' % (name, newname))
         # ---- conversions
-        hier = hierarchy(name, [])
+        hier = hierarchy(key, [])
         # type strings: take them from the emitted struct along the path
         def type_at(fp):
-            cur = name
+            cur = key
             ty = None
             for seg in fp:
                 st = structs.get(cur)
                 if st is None: return None
                 ty = {f[0]: f[2] for f in struct_fields(st[1])}.get(seg)
                 if ty is None: return None
-                cur = ty.split('::')[-1]
+                cur = key_of_str(ty)
             return ty
         conv_expected = []
         tys = [type_at(fp) for (fp, _, _) in hier]
